@@ -114,8 +114,10 @@ class C20(Oracle):
                 return
         # -- process-global template
         want = None if w.template is None else w.slots[w.template].obj
-        if Fxp.template is not want or Config.template is not None:
-            w.violation('C20', 'global-template', st, {'expected_slot': w.template}, culprit)
+        wantc = None if w.cfg_template is None else w.configs[w.cfg_template]
+        if Fxp.template is not want or Config.template is not wantc:
+            w.violation('C20', 'global-template', st, {'expected_slot': w.template,
+                                                       'expected_config': w.cfg_template}, culprit)
 
     def check_structure(self, w, n, st=None):
         N = w.slots[n]
@@ -365,10 +367,10 @@ class C02(Oracle):
             ovf_mode, rounding = kw.get('overflow', 'saturate'), kw.get('rounding', 'trunc')
             scaled = kw.get('scale', 1) != 1 or kw.get('bias', 0) != 0
             tgt = st.ret if isinstance(st.ret, Fxp) else None
-            if st.extra.get('cfg') is not None:
-                if tgt is None:
-                    return
+            if tgt is not None:
                 ovf_mode, rounding = tgt.config.overflow, tgt.config.rounding
+            elif st.extra.get('cfg') is not None or w.cfg_template is not None:
+                return
         if ovf_mode != 'saturate' or nf < 0 or scaled or s is None or nw > 52 or nf > nw + 8:
             return
         sh, flat = V.exact(val, (s, nw, nf))
